@@ -34,6 +34,7 @@ type docVar struct {
 	ColSub int    // column of the nested field "kind" (doc "o")
 	Vars   map[string]interface{}
 	Prefix string // value prefix contributed by the argument
+	OpName string // operation to run (documents with several operations)
 }
 
 func mkDoc(name, head, field, tail, key string, vars map[string]interface{}, prefix string) *docVar {
@@ -63,6 +64,15 @@ var docs = []*docVar{
 	mkDoc("inline", "subscription { ... on Subscription { ", "s", " } }", "s", nil, ""),
 	mkDoc("dirs", "subscription S($t: Boolean = true, $f: Boolean = false) { ", "s @include(if: $t) @skip(if: $f)", " }", "s", nil, ""),
 	mkDoc("enumdef", "subscription S($m: Mode = SLOW) { ", "a: s(m: $m)", " }", "a", nil, "<slow!>"),
+	// several operations, the subscription chosen by name: every event must be
+	// executed against that operation, not only the subscribe step
+	withOp(mkDoc("multiop", "subscription A { nn } subscription S { ", "s", " } query Z { __typename }", "s", nil, ""), "S"),
+	withOp(mkDoc("multiop2", "query Z { __typename } subscription S { ", "s", " } subscription B { nn }", "s", nil, ""), "S"),
+}
+
+func withOp(d *docVar, op string) *docVar {
+	d.OpName = op
+	return d
 }
 
 func docByName(n string) *docVar {
